@@ -1382,6 +1382,9 @@ static void setup_menus(void)
 		menu_add(RS_HIGHER_ANSWER);
 		menu_add(RS_HIGHER_CR_ONLY);
 		menu_add(RS_NOTIFY_WRONGVER_MID);
+		/* answers that make the client drop its session and start over: the version must survive that */
+		menu_add(RS_ERR_NODATA);
+		menu_add(RS_CACHE_RESET);
 		menu_add(RS_TIMEOUT);
 		IDLE_MENU[NIDLE++] = I_NOTIFY_WRONGVER;
 	} else if (is_prop("C08") || is_prop("C15R")) {
